@@ -4,4 +4,6 @@ go 1.22.0
 
 require github.com/enbility/ship-go v0.0.0
 
+require gitlab.com/c0b/go-ordered-json v0.0.0-20201030195603-febf46534d5a // indirect
+
 replace github.com/enbility/ship-go => /repo
